@@ -283,6 +283,8 @@ FINDINGS = [
          what="Core.analog_write(pin, inf) raised OverflowError instead of clamping; pin names like '\u00b2' raised ValueError in every Core function", cases=[]),
     dict(id="KF-C19-nan-durations", property="C19", status="fixed", commit="de4520c",
          what="Led.blink(nan), RGBLed.blink(.., delay_ms=nan), DCMotor.run_for(nan, 0.5), ramp(0.5, inf) passed the '< 0' test and failed inside time.sleep() after the object had changed", cases=[]),
+    dict(id="KF-C12-bom", property="C12", status="fixed", commit="52ccbed",
+         what="target() failed with SyntaxError (U+FEFF) for a script saved with a UTF-8 byte-order mark, which CPython itself runs", cases=[]),
     dict(id="KF-C14-lcd-rebind", property="C14", status="open", commit=None,
          what="one name bound first to a parallel LCD and later to an I2C LCD (or the reverse): both libraries are requested, but the emitter keeps only the first display (one header, one object); outside the documented style, like KF-C05-rebind",
          cases=c14_rebind_cases()),
